@@ -1,6 +1,7 @@
 package main
 
 import (
+	"syscall"
 	"errors"
 	"fmt"
 	"os"
@@ -25,6 +26,8 @@ import (
 var witnesses = map[string]func() (fails bool, detail string){}
 
 func runFinding(id string) int {
+	// a witness of a (repaired) resource blow-up must not take the machine with it when the defect is back
+	_ = syscall.Setrlimit(syscall.RLIMIT_AS, &syscall.Rlimit{Cur: 6 << 30, Max: 6 << 30})
 	w, ok := witnesses[id]
 	if !ok {
 		fmt.Println("unknown finding", id)
@@ -111,6 +114,15 @@ func init() {
 		}
 		_, err = e.Enforce("a", "d", "read")
 		return false, fmt.Sprint("load and enforce returned, err=", err)
+	}
+	// D3b: the level-order walk queued a subject once per path: 2^n queue entries on a chain of n diamonds
+	witnesses["D3b-subject-priority-diamonds"] = func() (bool, string) {
+		e, err := casbin.NewEnforcer(mustModel(subjectPriorityText()), diamondChain(40))
+		if err != nil {
+			return true, "load returned an error: " + err.Error()
+		}
+		ok, err := e.Enforce("n40", "d", "read")
+		return !ok || err != nil, fmt.Sprintf("load of a chain of 40 diamonds (acyclic, 121 subjects) returned; Enforce(n40, d, read) = %v, %v (n40 is the most specific subject: its allow rule decides)", ok, err)
 	}
 	// D4: the role-link rollback of applyModifiedModel never ran
 	witnesses["D4-load-rollback"] = func() (bool, string) {
@@ -435,4 +447,23 @@ func (a *panickingAdapter) AddPolicy(sec string, ptype string, rule []string) er
 func (a *panickingAdapter) RemovePolicy(sec string, ptype string, rule []string) error { return nil }
 func (a *panickingAdapter) RemoveFilteredPolicy(sec string, ptype string, fieldIndex int, fieldValues ...string) error {
 	return nil
+}
+
+func subjectPriorityText() string {
+	return strings.Replace(strings.Replace(rbacText, "some(where (p.eft == allow))", "subjectPriority(p_eft) || deny", 1), "p = sub, obj, act", "p = sub, obj, act, eft", 1)
+}
+
+// diamondChain: n_i -> {a_i, b_i} -> n_{i+1} for i < n (children point at parents: g child parent), n0 the
+// root; deny at the root, allow at the most specific subject n_n
+func diamondChain(n int) *mem.Adapter {
+	a := mem.New()
+	for i := 0; i < n; i++ {
+		a.Lines = append(a.Lines,
+			mem.Line{"g", []string{fmt.Sprintf("a%d", i), fmt.Sprintf("n%d", i)}},
+			mem.Line{"g", []string{fmt.Sprintf("b%d", i), fmt.Sprintf("n%d", i)}},
+			mem.Line{"g", []string{fmt.Sprintf("n%d", i+1), fmt.Sprintf("a%d", i)}},
+			mem.Line{"g", []string{fmt.Sprintf("n%d", i+1), fmt.Sprintf("b%d", i)}})
+	}
+	a.Lines = append(a.Lines, mem.Line{"p", []string{"n0", "d", "read", "deny"}}, mem.Line{"p", []string{fmt.Sprintf("n%d", n), "d", "read", "allow"}})
+	return a
 }
